@@ -1,0 +1,59 @@
+//go:build verif && (verif_all || verif_c18)
+// +build verif
+// +build verif_all verif_c18
+
+package gocql
+
+// Verification hooks for C18, round 8 (compressor errors on the send path, every request kind): one
+// request of any kind through Conn.exec, and what the connection still holds afterwards. Add-only.
+
+import (
+	"context"
+	"fmt"
+	"time"
+)
+
+// VerifC18fExec sends one request of the given kind (built by the REAL builder, with the statement /
+// blob as in VerifC18Build) through Conn.exec and returns the opcode of the response.
+func VerifC18fExec(c *Conn, kind, stmt string, blob []byte, timeout time.Duration) (byte, error) {
+	ctx, cancel := context.WithTimeout(context.Background(), timeout)
+	defer cancel()
+	var vals []queryValues
+	if len(blob) > 0 {
+		vals = []queryValues{{value: blob}}
+	}
+	params := queryParams{consistency: One, values: vals}
+	var b frameBuilder
+	switch kind {
+	case "options":
+		b = &writeOptionsFrame{}
+	case "query":
+		b = &writeQueryFrame{statement: stmt, params: params}
+	case "prepare":
+		b = &writePrepareFrame{statement: stmt + string(blob)}
+	case "execute":
+		b = &writeExecuteFrame{preparedID: []byte(stmt), params: params}
+	case "batch":
+		b = &writeBatchFrame{typ: LoggedBatch, consistency: One,
+			statements: []batchStatment{{statement: stmt, values: vals}}}
+	case "register":
+		b = &writeRegisterFrame{events: []string{stmt + string(blob)}}
+	case "auth":
+		b = &writeAuthResponseFrame{data: blob}
+	default:
+		return 0, fmt.Errorf("verif: unknown request kind %q", kind)
+	}
+	f, err := c.exec(ctx, b, nil)
+	if err != nil {
+		return 0, err
+	}
+	return byte(f.header.op), nil
+}
+
+// VerifC18fHeld: how many stream ids are free and how many calls are registered on the connection.
+func VerifC18fHeld(c *Conn) (available int, calls int) {
+	c.mu.Lock()
+	calls = len(c.calls)
+	c.mu.Unlock()
+	return c.streams.Available(), calls
+}
